@@ -103,6 +103,17 @@ checks.update({
    note="Scheduling points: storage calls, random reads, lock acquisitions (vsync shim); unknown kid and future iat are don't-care."),
 })
 
+checks.update({
+ "C18": dict(level="fault_enumeration", engine="FAULT", ref="DESIGN.md §5 C18",
+   technique="exhaustive storage-fault and crash-point enumeration on the real provider: every storage call of every flow x error kind, every crash point, fault pairs, on a plain and a transactional (real rollback) proxy store, followed by retry and attacker replays",
+   text="For 19 flows the storage-call trace of the target request is recorded; every call index x {generic, not-found, inactive, serialization conflict} (BeginTX/Commit/Rollback included), a crash before every call, and pairs (first fault anywhere, second within the next 6 calls) are injected. A failed request carries no token/code; serialization conflicts on refresh are retryable; begin is matched by exactly one commit or rollback and never followed by a commit after a failed write; after a rolled-back failure the code/token records equal the records before the request and the holder's retry succeeds; attacker variants (foreign client, missing/wrong verifier, replay) stay refused; a revocation that reports success is effective.",
+   note="Sentinel answers (not-found / inactive) at Get*/Revoke* calls are another store state, not a failure (don't-care). Record equality ignores session expiry fields."),
+ "C20": dict(level="exploration", engine="ENUM+FAULT", ref="DESIGN.md §5 C20",
+   technique="exhaustive enumeration of error x hostile text x format x debug x writer with re-parsing of the bytes written; scan of every storage call of every flow for usable secrets; storage-error text injection at every storage call",
+   text="38 errors (all exported RFC errors + a plain Go error) x hint/debug text from 16 hostile fragments (pairs in thorough) x legacy/new format x debug exposure x 9 writers: JSON re-parsed, redirects re-parsed (no injected parameter, state round-trips, no CR/LF in headers), form_post pages tokenised (only the expected inputs, no injected element), status matches code, debug detail only when enabled, no-store/no-cache everywhere. Storage: 16 flows x HMAC/JWT — no key or stored form value equals or contains a client secret, password, PKCE verifier, assertion or complete live code/token. A recognisable storage error text injected at every storage call of 19 flows never reaches the client.",
+   note="Known findings: OpenID Connect sessions keyed by the complete authorization code (storage contract). The user password necessarily reaches Authenticate."),
+})
+
 # properties not (yet) claimed: reason
 not_applicable = {
 }
@@ -123,8 +134,9 @@ man = {
  "engines": [
   {"name": "HIST", "path": "h/fam.go", "serves_properties": ["C01", "C04", "C08", "C09"], "kind_free_text": "explicit-state breadth-first search over API histories of the real provider, lock-step reference model, worker subprocesses, global dedup on canonical store dump"},
   {"name": "SCHED", "path": "h/sched.go h/schedscen.go", "serves_properties": ["C15", "C19"], "kind_free_text": "controlled cooperative scheduler over the real code (scheduling points at storage calls, random reads and shim lock acquisitions), stateless DFS with iterative preemption bounding, vector-clock happens-before race detector fed by overlay access hooks, deadlock detection"},
+  {"name": "FAULT", "path": "h/c18.go", "serves_properties": ["C18", "C20"], "kind_free_text": "fault / crash-point injection at the proxy-store seam: clean trace recording, exhaustive single faults, crash points and pairs, transactional store with snapshot rollback"},
   {"name": "SEQ", "path": "h/c03.go", "serves_properties": ["C03", "C16", "C17"], "kind_free_text": "exhaustive bounded enumeration of operation sequences on the real provider"},
-  {"name": "ENUM", "path": "h/c02.go h/c05.go h/c06.go h/c07.go h/c10.go h/c11.go h/c12.go h/c13.go h/c14.go", "serves_properties": ["C02", "C05", "C06", "C07", "C10", "C11", "C12", "C13", "C14"], "kind_free_text": "exhaustive enumeration of finite input/configuration/history-position products, each case executed on a fresh real provider and judged by an independent reference predicate"},
+  {"name": "ENUM", "path": "h/c02.go h/c05.go h/c06.go h/c07.go h/c10.go h/c11.go h/c12.go h/c13.go h/c14.go h/c20.go", "serves_properties": ["C02", "C05", "C06", "C07", "C10", "C11", "C12", "C13", "C14", "C20"], "kind_free_text": "exhaustive enumeration of finite input/configuration/history-position products, each case executed on a fresh real provider and judged by an independent reference predicate"},
  ],
  "checks": [],
  "notes": "All checks rebuild the instrumented harness from /repo's working tree (./verif). Violations are re-executed 5x from their artefact before being reported; known findings live in /verif/known_findings.json.",
